@@ -1,8 +1,196 @@
 --------------------------- MODULE ExchangeProps ---------------------------
-(* stage stub: monitors are added in stage 5 *)
+(* ALL market-level monitors (C04 - C14) as predicates on the ONE state of Exchange.tla.
+   Nothing is restated: every monitor is the operator of the property's own Props module
+   (MarketProps C04-C06, MarketHistProps C07 C08 C12 C13, PositionProps C09-C11, DistributionProps C14),
+   applied to the event of that module's shape obtained from an exchange event through the same lenses
+   the actions use.
+
+   Exchange event J (one operation on the one state; built from the logs by Trace_Exchange, from the
+   specification's own transition by MC_Exchange):
+     reset, op, a (arguments, the driver's `arg`), c, px, ok, panic
+     s0 / s1   state before / after (after = before when ok = FALSE: the revert)
+     sp        the partial state the operation itself left behind (= s1 when ok)
+     rep       uniform report (Exchange!NoRep)
+   The literal statements of C06 (round trip), C08 (residual, conservation), C10, C11 do not hold on the
+   design in the classes recorded in known_findings.json; the *Design variants exclude exactly those
+   classes (as MC_Market, MC_FundingBack, MC_PositionC10, MC_PositionC11 do) and are what the bounded model
+   is held to.  Recorded histories are judged with the literal monitors and classified by the glue. *)
 EXTENDS Exchange
+
+MP == INSTANCE MarketProps
 HP == INSTANCE MarketHistProps
+PP == INSTANCE PositionProps
+DP == INSTANCE DistributionProps
+
+IsLiqOp(J)  == J.op \in {"deposit", "withdraw", "swap"}
+IsPosOp(J)  == J.op \in {"increase", "decrease"}
+SlotOf(J)   == IF J.a.pos \in 1..Len(J.s0.ps) THEN J.a.pos ELSE 1
+
+-----------------------------------------------------------------------------
+(* C04 C05 C06: the event of MarketProps *)
+MEv(J, rt) ==
+  [reset |-> J.reset, rt |-> rt, op |-> J.op, side |-> J.a.long_in,
+   a |-> CASE J.op = "swap" -> J.a.amt [] J.op = "deposit" -> J.a.l [] J.op = "withdraw" -> J.a.mt [] OTHER -> 0,
+   b |-> IF J.op = "deposit" THEN J.a.s ELSE 0,
+   pr |-> MPr(J.px), c |-> MCfg(J.c), ok |-> J.ok, panic |-> J.panic,
+   out |-> CASE J.op = "swap" -> J.rep.swOut [] J.op = "deposit" -> J.rep.minted
+             [] J.op = "withdraw" -> J.rep.wd[1] [] OTHER -> 0,
+   out2 |-> IF J.op = "withdraw" THEN J.rep.wd[2] ELSE 0,
+   impact |-> J.rep.impact, impactAmt |-> J.rep.impactAmt,
+   fpl |-> J.rep.fpl, frl |-> J.rep.frl, fps |-> J.rep.fps, frs |-> J.rep.frs,
+   pre |-> MView(J.s0, J.c, J.px), post |-> MView(J.sp, J.c, J.px), pvPre |-> 0, pvPost |-> 0]
+(* a withdrawal of exactly what the previous event (a deposit at the same prices) minted *)
+IsLpRoundTrip(Jd, Jw) ==
+  /\ ~Jw.reset /\ Jd.op = "deposit" /\ Jd.ok /\ Jw.op = "withdraw" /\ Jw.ok
+  /\ Jw.a.mt = Jd.rep.minted /\ Jw.px = Jd.px /\ Jw.s0 = Jd.s1
+(* C04 "a failed swap leaves every pool unchanged": on the whole state, before any revert *)
+C04AtomicAll(J) == (J.op = "swap" /\ ~J.ok) => J.sp = J.s0
+
+MarketMonitors(J) ==
+  LET e == MEv(J, FALSE) IN
+  << <<"C04.In", MP!C04In(e)>>, <<"C04.Out", MP!C04Out(e)>>, <<"C04.Atomic", MP!C04Atomic(e) /\ C04AtomicAll(J)>>,
+     <<"C05.Value", MP!C05Value(e)>>, <<"C05.Exact", MP!C05Exact(e)>>, <<"C05.Funded", MP!C05Funded(e)>>,
+     <<"C06.DepositShare", MP!C06DepositShare(e)>>, <<"C06.WithdrawShare", MP!C06WithdrawShare(e)>>,
+     <<"C06.First", MP!C06First(e)>> >>
+LpRoundTripMonitors(Jd, Jw) ==
+  LET d == MEv(Jd, FALSE)
+      w == MEv(Jw, TRUE) IN
+  << <<"C06.RoundTrip", IsLpRoundTrip(Jd, Jw) => MP!C06RoundTrip(d, w)>>,
+     <<"C06.RoundTripFunded", IsLpRoundTrip(Jd, Jw) => MP!C06RoundTripFunded(d, w)>> >>
+
+-----------------------------------------------------------------------------
+(* C09 C10: the operation event of PositionProps.  A decrease with the liquidation flag and a size
+   covering the position is what the program's liquidation order executes ("liquidate"). *)
+PEv(J, rt) ==
+  LET k == SlotOf(J) IN
+  [reset |-> J.reset,
+   op |-> IF J.op = "increase" THEN "increase"
+          ELSE IF J.a.liq /\ J.a.size >= J.s0.ps[k].size THEN "liquidate" ELSE "decrease",
+   tag |-> "", px |-> PPx(J.px),
+   a |-> [dcoll |-> J.a.coll, dsize |-> J.a.size, acc |-> IF J.a.acc = 0 THEN -1 ELSE J.a.acc, wd |-> J.a.wd,
+          insolvent |-> J.a.ins, cap |-> J.a.cap],
+   pre |-> [m |-> PView(J.s0, J.c), p |-> PPos(J.s0.ps[k])], ok |-> J.ok,
+   post |-> [m |-> PView(J.s1, J.c), p |-> PPos(J.s1.ps[k])],
+   rep |-> J.rep.pos, adl |-> [ex |-> FALSE, f0 |-> 0, f1 |-> 0], rt |-> rt, panic |-> J.panic]
+IsPosRoundTrip(J1, J2) ==
+  /\ ~J2.reset /\ J1.op = "increase" /\ J2.op = "decrease" /\ J1.a.pos = J2.a.pos /\ J2.s0 = J1.s1
+PositionMonitors(J) ==
+  LET e == PEv(J, FALSE) IN
+  << <<"C09.IncreaseHealthy", PP!MonIncreaseHealthy(e)>>, <<"C09.DecreaseHealthy", PP!MonDecreaseHealthy(e)>>,
+     <<"C09.Liquidation", PP!MonLiquidation(e)>> >>
+PosRoundTripMonitors(J1, J2) ==
+  << <<"C10.RoundTrip", IsPosRoundTrip(J1, J2) => PP!MonRoundTrip(PEv(J1, FALSE), PEv(J2, TRUE))>> >>
+PosRoundTripDesign(J1, J2) ==
+  (IsPosRoundTrip(J1, J2) /\ PP!CapConvention(PCfg(J1.c))) => PP!MonRoundTrip(PEv(J1, FALSE), PEv(J2, TRUE))
+
+-----------------------------------------------------------------------------
+(* C11: pnl of position k of state s at prices px and at an index price k higher; f / q are the results
+   of pnl_value for a full close / the partial close d (from the real code, or from P!PnlValue) *)
+CEv(s, c, px, slot, up, d, f1, f2, q1, q2) ==
+  [reset |-> FALSE, p |-> PPos(s.ps[slot]), m |-> PView(s, c), px1 |-> PPx(px),
+   px2 |-> PPx([px EXCEPT !.imin = @ + up, !.imax = @ + up]), d |-> d,
+   f1 |-> f1, f2 |-> f2, q1 |-> q1, q2 |-> q2, panic |-> FALSE]
+SpecCEv(s, c, px, slot, up, d) ==
+  LET p  == PPos(s.ps[slot])
+      m  == PView(s, c)
+      p2 == PPx([px EXCEPT !.imin = @ + up, !.imax = @ + up])
+  IN CEv(s, c, px, slot, up, d, P!PnlValue(p, m, PPx(px), p.size), P!PnlValue(p, m, p2, p.size),
+         P!PnlValue(p, m, PPx(px), d), P!PnlValue(p, m, p2, d))
+PnlMonitors(ce) ==
+  << <<"C11.Monotone", PP!MonMonotone(ce)>>, <<"C11.MonotoneNoCap", PP!CapActive(ce) \/ PP!MonMonotone(ce)>>,
+     <<"C11.MonotoneUncapped", PP!MonMonotoneUncapped(ce)>>, <<"C11.Capped", PP!MonCapped(ce)>>,
+     <<"C11.Partial", PP!MonPartial(ce)>> >>
+PnlDesign(ce) ==
+  /\ PP!CapActive(ce) \/ PP!MonMonotone(ce)
+  /\ PP!MonMonotoneUncapped(ce) /\ PP!MonCapped(ce) /\ PP!MonPartial(ce)
+
+-----------------------------------------------------------------------------
+(* C14: the distribution event of DistributionProps *)
+DEv(J) ==
+  [reset |-> FALSE, amount |-> J.s0.m.pimp, min |-> J.c.dist_min, rate |-> J.c.dist_factor,
+   dt |-> PassedDist(J.s0.m), pok |-> FALSE, pd |-> 0, pnext |-> 0,
+   ok |-> J.ok, d |-> J.rep.d, next |-> J.rep.next, dur |-> J.rep.dur, after |-> J.sp.m.pimp, panic |-> J.panic]
+DistributionMonitors(J) ==
+  LET e == DEv(J) IN
+  << <<"C14.NonIncreasing", J.op = "distribute" => DP!MonNonIncreasing(e)>>,
+     <<"C14.Floor", J.op = "distribute" => DP!MonFloor(e)>>,
+     <<"C14.Amount", J.op = "distribute" => DP!MonAmount(e)>> >>
+
+-----------------------------------------------------------------------------
+(* C07 C08 C12 C13: the event of MarketHistProps (`he`: the logged event itself on traces) and its
+   monitors, listed as in Trace_MarketHist *)
 Led0 == HP!Led0
-NextLedger(led, e) == HP!NextLedger(led, e)
-Monitors(step, pre, s0, e, led, nl) == << <<"none", TRUE>> >>
+NextLedger(led, he) == HP!NextLedger(led, he)
+HistMonitors(step, preM, he, led, nl) ==
+  << <<"C07.OIUsd",          HP!C07_OIUsd(he.m, he.ps)>>,
+     <<"C07.OITokens",       HP!C07_OITokens(he.m, he.ps)>>,
+     <<"C07.CollateralSum",  HP!C07_CollateralSum(he.m, he.ps)>>,
+     <<"C07.Removed",        HP!C07_Removed(he)>>,
+     <<"C08.Conserved",      IF step THEN HP!C08_Conserved(led, preM, nl, he) ELSE HP!C08_ConservedAtReset(nl, he)>>,
+     <<"C08.ResidualBacked", HP!C08_ResidualBacked(nl, he.m, he.c, he.ps)>>,
+     <<"C08.ResidualLiteral", HP!C08_ResidualLiteral(nl, he.m)>>,
+     <<"C12.RateBounds",     HP!C12_RateBounds(he.f, he.c)>>,
+     <<"C12.LargerSidePays", HP!C12_LargerSidePays(he.f, he.c)>>,
+     <<"C12.LargerSidePaysEffect", step => HP!C12_LargerSidePaysEffect(preM, he)>>,
+     <<"C12.IndicesMonotone", step => HP!C12_IndicesMonotone(preM, he.m)>>,
+     <<"C12.PendingNonNeg",  HP!C12_PendingNonNeg(he.m, he.c, he.ps) /\ HP!C12_PendingNonNegReal(he.ps)>>,
+     <<"C12.PendingNonNegPartial", HP!C12_PendingNonNegPartial(he.pp)>>,
+     <<"C13.FactorMonotone", step => HP!C13_FactorMonotone(preM, he.m)>>,
+     <<"C13.TotalBorrowing", HP!C13_TotalBorrowing(he.m, he.ps)>>,
+     <<"C13.PendingFees",    HP!C13_PendingState(he.m) /\ HP!C13_PendingReal(he.b)>> >>
+
+(* the MarketHistProps event of an exchange event, with every probe of the real code replaced by the
+   specification's own value (bounded model) *)
+SpecHEv(J) ==
+  LET k  == SlotOf(J)
+      p0 == J.s0.ps[k]
+      m1 == J.s1.m
+      r  == J.rep
+      upd == J.op \in {"update_funding", "update_fees"}
+      dtF == H!PassedFunding(J.s0.m)
+      oiL == H!SideOI(J.s0.m, TRUE)
+      oiS == H!SideOI(J.s0.m, FALSE)
+      nf  == H!NextFundingFactorPerSecond(J.c, J.s0.m.ffps, dtF, oiL, oiS)
+      tp(long, dt) == H!TotalPendingBorrowingFees(m1, J.c, J.px, long, dt)
+      d0  == H!PassedBorrowing(m1)
+      dh  == IF m1.ck_b < 0 THEN 0 ELSE d0 + HP!HypoTick
+      pq  == J.sp.ps[k]
+      pf  == H!PendingFunding(J.sp.m, J.c, pq)
+  IN [reset |-> J.reset, op |-> J.op, ok |-> J.ok, arg |-> J.a, ncb |-> r.ncb, m |-> m1, c |-> J.c,
+      ps |-> [i \in 1..Len(J.s1.ps) |->
+                LET q == J.s1.ps[i] IN
+                [long |-> q.long, cl |-> q.cl, size |-> q.size, tok |-> q.tok, col |-> q.col, bf |-> q.bf,
+                 fps |-> q.fps, cfps |-> q.cfps, pf_ok |-> H!PendingFunding(m1, J.c, q).ok]],
+      r |-> [wd |-> r.wd, sw_out |-> r.swOut, cf |-> <<r.pos.clL, r.pos.clS>>, out |-> r.pos.out, out2 |-> r.pos.sec,
+             out_long |-> p0.cl, out2_long |-> p0.long, hold |-> <<0, r.pos.hold>>, user |-> <<r.pos.uo, r.pos.us>>,
+             fund |-> r.pos.fund, remove |-> r.pos.remove, dusd |-> r.pos.dsize, dtok |-> r.pos.dtok,
+             cdelta |-> r.pos.dcoll, minted |-> r.minted],
+      f |-> IF upd /\ oiL > 0 /\ oiS > 0
+            THEN [has |-> TRUE, dt |-> dtF, L |-> oiL, S |-> oiS, ok |-> nf.ok, rate |-> nf.rate, lp |-> nf.lp,
+                  next |-> nf.next, stored |-> J.s0.m.ffps]
+            ELSE [has |-> FALSE, dt |-> 0, L |-> 0, S |-> 0, ok |-> FALSE, rate |-> 0, lp |-> FALSE, next |-> 0, stored |-> 0],
+      b |-> [l_ok |-> tp(TRUE, d0).ok, l |-> tp(TRUE, d0).v, s_ok |-> tp(FALSE, d0).ok, s |-> tp(FALSE, d0).v,
+             hl_ok |-> tp(TRUE, dh).ok, hl |-> tp(TRUE, dh).v, hs_ok |-> tp(FALSE, dh).ok, hs |-> tp(FALSE, dh).v],
+      pp |-> [has |-> IsPosOp(J) /\ ~J.ok /\ pq.size > 0, ok |-> pf.ok, size |-> pq.size, fps |-> pq.fps, cfps |-> pq.cfps,
+              idx |-> J.sp.m.fps[H!Ix(pq.long)][H!Ix(pq.cl)], cidx |-> J.sp.m.cfps[H!Ix(pq.long)]]]
+
+(* C08 on the design: the fee-remainder dust of pay_for_fees_excluding_funding (known finding
+   C08-fee-remainder-dust) is the one admitted exception; `dust` accumulates it per token *)
+DustOf(J, he, led, preM, nl) ==
+  LET k  == SlotOf(J)
+      p  == J.s1.ps[k]
+      tc == H!Ix(p.cl)
+      tp == H!Ix(p.long)
+      exc(t) == HP!FundingDue(he, t) - HP!FundingClaimed(he, t)
+                  - (HP!Residual(nl, he.m, t) - HP!Residual(led, preM, t))
+      pc == IF tc = 1 THEN J.px.lmin ELSE J.px.smin
+      pq == IF tp = 1 THEN J.px.lmin ELSE J.px.smin
+  IN IF J.op = "decrease" /\ J.ok /\ he.ncb = 0 /\ tc # tp /\ p.col = 0
+        /\ exc(tc) > 0 /\ exc(tp) = 0 /\ exc(tc) * pc < pq
+     THEN <<exc(1), exc(2)>> ELSE <<0, 0>>
+C08ConservedDesign(J, he, led, preM, nl) ==
+  HP!C08_Conserved(led, preM, nl, he) \/ DustOf(J, he, led, preM, nl) # <<0, 0>>
+C08BackedDesign(nl, dust, m, c, ps) ==
+  ~nl.cb => \A t \in 1..2 :
+     HP!Residual(nl, m, t) + dust[t] + HP!PendingOwed(m, c, ps, t) - HP!PendingClaimable(m, c, ps, t) >= 0
 =============================================================================
